@@ -566,7 +566,37 @@ impl Reader {
         writer_guid,
         writer_seq_num,
       ),
-      Err(e) => debug!("Parsing DATA to DDSData failed: {}", e),
+      Err(e) => {
+        debug!("Parsing DATA to DDSData failed: {}", e);
+        // We cannot make a CacheChange out of this DATA, but the sequence number
+        // has been used by the writer nevertheless. If we do not take note of
+        // that, a Reliable Reader keeps requesting this sequence number again forever,
+        // and never gets to deliver anything that comes after it.
+        self.note_unusable_change(writer_guid, writer_seq_num);
+      }
+    }
+  }
+
+  // A DATA submessage was received, but it cannot be converted to a CacheChange,
+  // e.g. because it has no payload and no key hash (like the end marker of a
+  // coherent set), or its contents are invalid. Treat the sequence number like
+  // one that the writer has declared not available in a GAP.
+  fn note_unusable_change(&mut self, writer_guid: GUID, writer_sn: SequenceNumber) {
+    if self.like_stateless {
+      return;
+    }
+    let all_ackable_before = match self.matched_writer_mut(writer_guid) {
+      Some(writer_proxy) => {
+        writer_proxy.set_irrelevant_change(writer_sn);
+        writer_proxy.all_ackable_before()
+      }
+      None => return,
+    };
+    let marker_moved = self
+      .acquire_the_topic_cache_guard()
+      .mark_reliably_received_before(writer_guid, all_ackable_before);
+    if marker_moved {
+      self.notify_cache_change();
     }
   }
 
